@@ -21,6 +21,7 @@ import (
 
 	"github.com/gin-gonic/gin"
 	"github.com/ollama/ollama/fs/ggml"
+	"github.com/ollama/ollama/template"
 	"github.com/ollama/ollama/types/model"
 	"pgregory.net/rapid"
 	"verif.local/vfkit"
@@ -88,6 +89,42 @@ func c04Init() {
 			}
 			c04GGUFs = append(c04GGUFs, b.buf)
 		}
+		// a fourth model file carries a tokenizer.chat_template that ollama recognises (one of template/index.json of the
+		// tree under test): create then adds the matching built-in template as a layer of its own accord, and a request
+		// may spell out exactly that template (a Modelfile copied from `ollama show --modelfile`)
+		if raw, err := os.ReadFile(filepath.Join(os.Getenv("VERIF_REPO"), "template", "index.json")); err == nil {
+			var idx []struct{ Name, Template string }
+			if json.Unmarshal(raw, &idx) == nil {
+				for _, ent := range idx {
+					nt, err := template.Named(ent.Template)
+					if ent.Name != "zephyr" || err != nil || len(nt.Bytes) == 0 {
+						continue
+					}
+					var b c04WS
+					err = ggml.WriteGGUF(&b, ggml.KV{
+						"general.architecture":          "llama",
+						"general.name":                  "variant-chat-template",
+						"llama.context_length":          uint32(32),
+						"llama.embedding_length":        uint32(64),
+						"llama.block_count":             uint32(1),
+						"llama.attention.head_count":    uint32(4),
+						"llama.attention.head_count_kv": uint32(4),
+						"tokenizer.ggml.tokens":         []string{" "},
+						"tokenizer.ggml.scores":         []float32{0},
+						"tokenizer.ggml.token_type":     []int32{0},
+						"tokenizer.chat_template":       ent.Template,
+					}, []ggml.Tensor{
+						{Name: "blk.0.attn.weight", Kind: 0, Shape: []uint64{1, 1, 1, 8}, WriterTo: bytes.NewReader(make([]byte, 32))},
+						{Name: "output.weight", Kind: 0, Shape: []uint64{1, 1, 1, 8}, WriterTo: bytes.NewReader(make([]byte, 32))},
+					})
+					if err == nil {
+						c04GGUFs = append(c04GGUFs, b.buf)
+						c04Tmpls = append(c04Tmpls, string(nt.Bytes))
+					}
+					break
+				}
+			}
+		}
 	})
 }
 
@@ -136,9 +173,9 @@ func c04Gen(t *rapid.T) c04Case {
 		}
 		switch o.Kind {
 		case "create", "createfrom":
-			o.GGUF = rapid.IntRange(0, 2).Draw(t, "gguf")
+			o.GGUF = rapid.IntRange(0, 3).Draw(t, "gguf")
 			o.Sys = rapid.IntRange(0, 2).Draw(t, "sys")
-			o.Tmpl = rapid.IntRange(0, 2).Draw(t, "tmpl")
+			o.Tmpl = rapid.IntRange(0, 3).Draw(t, "tmpl")
 			o.Lic = rapid.SampledFrom([]int{0, 0, 3, 4}).Draw(t, "lic")
 			o.Param = rapid.IntRange(0, 2).Draw(t, "param")
 			o.Stream = rapid.Bool().Draw(t, "stream")
@@ -146,7 +183,7 @@ func c04Gen(t *rapid.T) c04Case {
 				o.DCase = rapid.SampledFrom([]int{0, 0, 0, 0, 0, 3, 3, 1, 2}).Draw(t, "dcase")
 			}
 		case "blob":
-			o.GGUF = rapid.IntRange(0, 2).Draw(t, "gguf")
+			o.GGUF = rapid.IntRange(0, 3).Draw(t, "gguf")
 		case "pull":
 			o.Stream = rapid.Bool().Draw(t, "stream")
 		case "pulldel":
